@@ -741,6 +741,12 @@ func genClientScript(r *rand.Rand, trace, length int, profile string) *clScript 
 				n := []int{32, 32, 36, 40, 44, 44, 44, 48, 64, 33, 38, 43}[r.Intn(12)]
 				plan = append(plan, gap(r)...)
 				plan = append(plan, simFrame{K: "msg", Type: 1000, Rel: "own", Payload: randomPayload(r, n)})
+				if r.Intn(6) == 0 {
+					// the status overtakes the acknowledgement (the kernel sends it from a thread of its own)
+					plan = append(gap(r), simFrame{K: "msg", Type: 1000, Rel: "own", Payload: randomPayload(r, []int{32, 44, 48}[r.Intn(3)])})
+					plan = append(plan, gap(r)...)
+					plan = append(plan, ackFrame(0))
+				}
 			}
 			sc.Ops = append(sc.Ops, clOp{Name: "GetStatus", Mode: "wait", Plan: [][]simFrame{plan}})
 		case x < 65:
